@@ -278,4 +278,38 @@ example :
     o2 = [Out.send "p1" { kind := .estRsp, seq := 2, seid := some 0x77#64, cause := some 1, nodeID := true, fseid := some 1#64 }] ∧
     o3 = [Out.send "p2" { kind := .modRsp, seq := 2, seid := some 0#64, cause := some 65 }] := by decide
 
+/-! ### the Session Establishment Response names the PDRs it created -/
+
+/-- the list of Created PDR IEs: one per PDR of the request that carries a UE IP address — its id and that address — in request
+    order.  It is a function of the request's content alone: the order of the children INSIDE a Create PDR IE (PDR ID before
+    or after the PDI) does not enter (the model works on the decoded IE; that the real handler reads the id wherever it sits
+    is what the `/L` Create PDRs of the ctl stream observe) -/
+def expectedCreated (r : EstReq) : List (Nat × Bytes) := r.pdr.filterMap fun ie => ie.ueip.map fun ip => (ie.id.getD 0, ip)
+
+/-- an accepted establishment (known node, F-SEID present, the request's receive transaction in place) is answered with
+    exactly that list, the new session's SEID and cause "accepted" -/
+theorem est_created_exact (st : State) (addr : String) (seq : BitVec 24) (r : EstReq) (env : Env) (c : Ctx)
+    (nid : NodeId) (h : Nat) (cp : Seid) (rx : Rx)
+    (hn : r.nodeID = some nid) (hh : st.nodeOf nid = some h) (hc : r.cpSeid = some cp)
+    (hrx : alGet st.rx (addr, seq) = some rx) :
+    ∃ m, (handleEst st addr seq r env c).2.outs.getLast? = some (Out.send addr m) ∧
+      m.kind = .estRsp ∧ m.seq = seq ∧ m.cause = some causeAccepted ∧ m.created = expectedCreated r ∧
+      m.fseid = some (st.lnode.newSess h cp).2.localID := by
+  unfold handleEst
+  simp only [hn, hh, hc]
+  generalize st.lnode.newSess h cp = N
+  obtain ⟨ln, s0⟩ := N
+  simp only []
+  have hk := runStages_keeps (estStages r) (estStages_keep r) s0 c []
+  generalize runStages (estStages r) s0 c [] = R at hk
+  obtain ⟨s5, c5, u5⟩ := R
+  simp only [] at hk ⊢
+  unfold State.sendRsp
+  have hrx' : alGet ((({ st with lnode := ln } : State).modNode h fun n => { n with sess := setIns n.sess s0.localID }).setSess s5).rx (addr, seq) = some rx := hrx
+  simp only [hrx']
+  refine ⟨{ kind := .estRsp, seq := seq, seid := some s5.remoteID, cause := some causeAccepted, nodeID := true,
+            fseid := some s5.localID, created := expectedCreated r }, ?_, rfl, rfl, rfl, rfl, ?_⟩
+  · simp [Ctx.emit, expectedCreated]
+  · exact congrArg some hk.1
+
 end UpfVerif.C08
